@@ -44,8 +44,10 @@ VARIABLES msg, q,       \* message and arguments [mode, version, count, error, e
           nsym, sver,   \* number of symbols, version of the symbols
           syms,         \* symbols encoded so far: [version, error, mask, M, segs]
           res,          \* "?" | "ok" | "ValueError" | "DataOverflowError"
-          devs          \* named deviation steps taken
-savars == <<msg, q, st, smode, nsym, sver, syms, res, devs>>
+          devs,         \* named deviation steps taken
+          padmode       \* "iso" | "dev": whether aligned streams get the surplus zero codeword of KF-C13-1 - one choice per behaviour
+                        \* (an implementation either has the deviation or not; a choice per symbol would give 2^16 behaviours)
+savars == <<msg, q, st, smode, nsym, sver, syms, res, devs, padmode>>
 
 Lvl == IF q.error = "-" THEN "L" ELSE q.error
 RepresentableSA(m, cls) == CASE m = "numeric" -> cls = "num" [] m = "alphanumeric" -> cls \in {"num", "alnum"}
@@ -75,14 +77,15 @@ EstimatedCountSA(v) ==
 SAInit == /\ msg \in MsgPool
           /\ q \in [mode : ReqModesSA, version : ReqVersionsSA, count : ReqCountsSA, error : ReqLevelsSA, eci : ReqEciSA, boost : ReqBoostSA]
           /\ st = "start" /\ smode = "?" /\ nsym = 0 /\ sver = NoVersionSA /\ syms = <<>> /\ res = "?" /\ devs = {}
+          /\ padmode \in (IF AllowDevPadSA THEN {"iso", "dev"} ELSE {"iso"})
 
-Refuse(kind) == /\ st' = "done" /\ res' = kind /\ UNCHANGED <<msg, q, smode, nsym, sver, syms, devs>>
+Refuse(kind) == /\ st' = "done" /\ res' = kind /\ UNCHANGED <<msg, q, smode, nsym, sver, syms, devs, padmode>>
 
 SA_Normalize ==
   /\ st = "start"
   /\ IF (q.version # NoVersionSA /\ q.version < 1) \/ (q.version = NoVersionSA /\ q.count = NoCount) \/ (q.count # NoCount /\ q.count \notin 1..16)
      THEN Refuse("ValueError")
-     ELSE st' = "normalized" /\ UNCHANGED <<msg, q, smode, nsym, sver, syms, res, devs>>
+     ELSE st' = "normalized" /\ UNCHANGED <<msg, q, smode, nsym, sver, syms, res, devs, padmode>>
 
 SA_Prepare ==
   /\ st = "normalized"
@@ -90,7 +93,7 @@ SA_Prepare ==
          m == IF q.mode # "none" THEN q.mode ELSE AutoMode(cls) IN
      IF q.mode # "none" /\ ~RepresentableSA(q.mode, cls)
      THEN Refuse("ValueError")
-     ELSE smode' = m /\ st' = "prepared" /\ UNCHANGED <<msg, q, nsym, sver, syms, res, devs>>
+     ELSE smode' = m /\ st' = "prepared" /\ UNCHANGED <<msg, q, nsym, sver, syms, res, devs, padmode>>
 
 \* boosting of one symbol (single segment): climb while the next level still holds the stream
 BoostedLevel(v, e, need) ==
@@ -120,13 +123,12 @@ SA_TrySingle ==
   /\ st = "prepared"
   /\ LET g == FirstFitSingle IN
      IF q.count = NoCount /\ g # NoVersionSA /\ g <= q.version
-     THEN \E devpad \in {FALSE, TRUE} :
-            LET v == q.version segs == SegsOf(1, 1, FALSE) e == BoostedLevel(v, Lvl, StreamLen(v, segs)) IN
-            /\ (devpad => AllowDevPadSA /\ DevPadApplies(v, e, segs))
+     THEN LET v == q.version segs == SegsOf(1, 1, FALSE) e == BoostedLevel(v, Lvl, StreamLen(v, segs))
+              devpad == padmode = "dev" /\ DevPadApplies(v, e, segs) IN
             /\ syms' = <<SymbolOf(v, e, segs, devpad)>>
             /\ devs' = IF devpad THEN devs \cup {"Dev_PadBitsWhenAligned"} ELSE devs
-            /\ nsym' = 1 /\ sver' = v /\ st' = "returned" /\ res' = "ok" /\ UNCHANGED <<msg, q, smode>>
-     ELSE st' = "split" /\ UNCHANGED <<msg, q, smode, nsym, sver, syms, res, devs>>
+            /\ nsym' = 1 /\ sver' = v /\ st' = "returned" /\ res' = "ok" /\ UNCHANGED <<msg, q, smode, padmode>>
+     ELSE st' = "split" /\ UNCHANGED <<msg, q, smode, nsym, sver, syms, res, devs, padmode>>
 
 SA_Split ==
   /\ st = "split"
@@ -136,29 +138,28 @@ SA_Split ==
           ELSE /\ (q.count = NoCount => \A i \in 1..n : FitsSA(q.version, Lvl, n, i))       \* otherwise only the deviation explains the code
                /\ nsym' = n /\ sver' = q.version
                /\ st' = (IF q.count # NoCount THEN "pickversion" ELSE "encode")
-               /\ UNCHANGED <<msg, q, smode, syms, res, devs>>
+               /\ UNCHANGED <<msg, q, smode, syms, res, devs, padmode>>
 Dev_SeqEstimateOnly ==
   /\ AllowDevEstimate /\ st = "split" /\ q.count = NoCount
   /\ LET n == EstimatedCountSA(q.version) IN
      /\ n <= 16 /\ \E i \in 1..n : ~FitsSA(q.version, Lvl, n, i)
      /\ nsym' = n /\ sver' = q.version /\ devs' = devs \cup {"Dev_SeqEstimateOnly"}
-     /\ st' = "returned_overfull" /\ res' = "ok" /\ UNCHANGED <<msg, q, smode, syms>>
+     /\ st' = "returned_overfull" /\ res' = "ok" /\ UNCHANGED <<msg, q, smode, syms, padmode>>
 
 SA_PickVersion ==
   /\ st = "pickversion"
   /\ LET S == SelectSeq([k \in 1..40 |-> k], LAMBDA v : FitsSA(v, Lvl, nsym, 1)) IN        \* chunk 1 is a longest chunk
      IF S = <<>> THEN Refuse("DataOverflowError")
-     ELSE sver' = S[1] /\ st' = "encode" /\ UNCHANGED <<msg, q, smode, nsym, syms, res, devs>>
+     ELSE sver' = S[1] /\ st' = "encode" /\ UNCHANGED <<msg, q, smode, nsym, syms, res, devs, padmode>>
 
 SA_EncodeNext ==
   /\ st = "encode" /\ Len(syms) < nsym
   /\ LET i == Len(syms) + 1 segs == SegsOf(nsym, i, TRUE) e == BoostedLevel(sver, Lvl, StreamLen(sver, segs)) IN
-     \E devpad \in {FALSE, TRUE} :
-        /\ (devpad => AllowDevPadSA /\ DevPadApplies(sver, e, segs))
+     LET devpad == padmode = "dev" /\ DevPadApplies(sver, e, segs) IN
         /\ syms' = Append(syms, SymbolOf(sver, e, segs, devpad))
         /\ devs' = IF devpad THEN devs \cup {"Dev_PadBitsWhenAligned"} ELSE devs
-  /\ UNCHANGED <<msg, q, st, smode, nsym, sver, res>>
-SA_Return == /\ st = "encode" /\ Len(syms) = nsym /\ st' = "returned" /\ res' = "ok" /\ UNCHANGED <<msg, q, smode, nsym, sver, syms, devs>>
+  /\ UNCHANGED <<msg, q, st, smode, nsym, sver, res, padmode>>
+SA_Return == /\ st = "encode" /\ Len(syms) = nsym /\ st' = "returned" /\ res' = "ok" /\ UNCHANGED <<msg, q, smode, nsym, sver, syms, devs, padmode>>
 
 SANext == SA_Normalize \/ SA_Prepare \/ SA_TrySingle \/ SA_Split \/ Dev_SeqEstimateOnly \/ SA_PickVersion \/ SA_EncodeNext \/ SA_Return
 
